@@ -50,7 +50,7 @@ def main(tier: str) -> int:
     rep.coverage["shims"] = SHIMS
     rep.coverage["queried_after_another_state_by_the_same_operator_object"] = len(tasks) - n_first
     rep.coverage["bounds"] = {
-        "second_query": "programs with a numeric comparison are also queried by an operator object that has answered a query "
+        "second_query": "every fourth program with a numeric comparison is also queried by an operator object that has answered a query "
                         "about another state (same facts, independent fluent values) before",
         "programs": "curated core (every construct alone and pairs) + VERIF_SEED-sampled preconditions: conjunctions of "
                     "<=3 literals, one nested and/or of <=3 literals, one forall over t1/t3 with and/or body of <=2 literals; "
